@@ -415,7 +415,9 @@ def rich_case(draw, tier="quick"):
         nfail = draw(st.sampled_from([0, 0, 1, 1, 2]))
         fail_idx = draw(st.permutations(list(range(len(topo)))))[:nfail]
         for i in fail_idx:
-            topo[i] = {**topo[i], "fail": "always", "fail_empty": draw(st.booleans())}
+            # "always", or depending on the arguments (so that under map some items fail and others do not)
+            how = "always" if draw(st.booleans()) else {"mod": 2, "eq": draw(st.integers(0, 1))}
+            topo[i] = {**topo[i], "fail": how, "fail_empty": draw(st.booleans())}
         for n in topo:
             if prob(draw, 0.25):
                 n["cache"] = True
@@ -453,4 +455,7 @@ def rich_case(draw, tier="quick"):
     c["on_missing"] = draw(st.sampled_from(["ignore", "warn", "error"]))
     c["max_iter"] = draw(st.sampled_from([4, 10, 25]))
     c["omit_required"] = prob(draw, 0.08)
+    c["mc"] = draw(st.sampled_from([None, None, 1, 2, 3]))  # max_concurrency (async runners only)
+    c["cache_set_fails"] = prob(draw, 0.1)  # the cache backend's set() raises (quota, unpicklable, ...)
+    c["bad_on_missing"] = prob(draw, 0.05)  # an invalid on_missing value: the call must be rejected up front
     return c
